@@ -76,6 +76,29 @@ Proof.
 Qed.
 Print Assumptions C13_decay_guards.
 
+
+(* the radius guard: a state whose short-period radius is below one earth radius is never returned *)
+Theorem C13_radius_guard : forall e0 i ra w m n b ts,
+  (gen_nn1_rk_x0 e0 i ra w m n b ts < 1 -> gen_nn1_prop_outcome e0 i ra w m n b ts <> PropOk 0) /\
+  (gen_nn1_rk_x1 e0 i ra w m n b ts < 1 -> gen_nn1_prop_outcome e0 i ra w m n b ts <> PropOk 1) /\
+  (gen_nn1_rk_x2 e0 i ra w m n b ts < 1 -> gen_nn1_prop_outcome e0 i ra w m n b ts <> PropOk 2) /\
+  (gen_nn1_rk_x3 e0 i ra w m n b ts < 1 -> gen_nn1_prop_outcome e0 i ra w m n b ts <> PropOk 3) /\
+  (gen_nn1_rk_x4 e0 i ra w m n b ts < 1 -> gen_nn1_prop_outcome e0 i ra w m n b ts <> PropOk 4) /\
+  (gen_nn1_rk_x5 e0 i ra w m n b ts < 1 -> gen_nn1_prop_outcome e0 i ra w m n b ts <> PropOk 5) /\
+  (gen_nn1_rk_x6 e0 i ra w m n b ts < 1 -> gen_nn1_prop_outcome e0 i ra w m n b ts <> PropOk 6) /\
+  (gen_nn1_rk_x7 e0 i ra w m n b ts < 1 -> gen_nn1_prop_outcome e0 i ra w m n b ts <> PropOk 7) /\
+  (gen_nn1_rk_x8 e0 i ra w m n b ts < 1 -> gen_nn1_prop_outcome e0 i ra w m n b ts <> PropOk 8) /\
+  (gen_nn1_rk_x9 e0 i ra w m n b ts < 1 -> gen_nn1_prop_outcome e0 i ra w m n b ts <> PropOk 9) /\
+  (gen_nn1_rk_x9 e0 i ra w m n b ts < 1 -> gen_nn1_prop_outcome e0 i ra w m n b ts <> PropOk 10).
+Proof.
+  intros. unfold gen_nn1_prop_outcome. repeat split; intros Hr;
+  repeat match goal with
+         | |- context [Rlt_dec ?a ?b] => destruct (Rlt_dec a b); try lra; try discriminate
+         | |- context [Rle_dec ?a ?b] => destruct (Rle_dec a b); try lra; try discriminate
+         end.
+Qed.
+Print Assumptions C13_radius_guard.
+
 (* definedness of the propagation stage over the reals (the real-number half of "never NaN"):
    on a returned state every denominator and every sqrt argument is positive.  PARTIAL: the
    constructor's own denominators (1 - delta0, 1 + delta0, a0) are not controlled by any guard and
